@@ -174,20 +174,20 @@ func authzFuncs() []FuncSpec {
 		{File: "pkg/op/error.go", Name: "TryErrorRedirect", Lean: "TryErrorRedirect",
 			Params: []string{pO, "(authReq : ErrReq)", "(parent : String)", "(encoder : Encoder)", "(logger : Unit)"}, Ret: RetValErr, RetType: "Redirect"},
 		{File: "pkg/op/error.go", Name: "AuthRequestError", Lean: "AuthRequestError",
-			Params: []string{pO, "(authReq : ErrReq)", "(err : String)", "(authorizer : AzProvider)"}, Ret: RetHandler},
+			Params: []string{pO, "(authReq : ErrReq)", "(err : String)", "(authorizer : AzProvider)"}, Ret: RetWrites},
 		{File: "pkg/op/server_legacy.go", Name: "LegacyServer.VerifyAuthRequest", Lean: "LegacyVerifyAuthRequest",
 			Params: []string{pD, "(s : AzLegacyServer)", "(r : Request AuthRequestData)"}, Ret: RetValErr, RetType: "(ClientRequest AuthRequestData)"},
 		{File: "pkg/op/server_legacy.go", Name: "LegacyServer.Authorize", Lean: "LegacyAuthorize",
 			Params: []string{pO, pD, "(s : AzLegacyServer)", "(r : ClientRequest AuthRequestData)"}, Ret: RetValErr, RetType: "Redirect"},
 		{File: "pkg/op/server_http.go", Name: "webServer.authorize", Lean: "WebAuthorize",
 			Params: []string{pO, pD, "(s : AzWebServer)", "(r : Request AuthRequestData)"}, Ret: RetValErr, RetType: "Redirect"},
-		{File: ar, Name: "RedirectToLogin", Lean: "RedirectToLogin", Params: []string{"(authReqID : AzStored)", pCl}, Ret: RetHandler},
+		{File: ar, Name: "RedirectToLogin", Lean: "RedirectToLogin", Params: []string{"(authReqID : AzStored)", pCl}, Ret: RetWrites},
 		{File: ar, Name: "ParseAuthorizeCallbackRequest", Lean: "ParseAuthorizeCallbackRequest", Params: []string{"(r : HttpReq)"}, Ret: RetValErr, RetType: "String"},
 		{File: ar, Name: "AuthResponseToken", Lean: "AuthResponseToken",
-			Params: []string{pO, pD, "(authReq : AzStored)", "(authorizer : AzProvider)", pCl}, Ret: RetHandler},
-		{File: ar, Name: "AuthResponseCode", Lean: "AuthResponseCode", Params: []string{pO, pD, "(authReq : AzStored)", "(authorizer : AzProvider)"}, Ret: RetHandler},
-		{File: ar, Name: "AuthResponse", Lean: "AuthResponse", Params: []string{pO, pD, "(authReq : AzStored)", "(authorizer : AzProvider)"}, Ret: RetHandler},
-		{File: ar, Name: "AuthorizeCallback", Lean: "AuthorizeCallback", Params: []string{pO, pD, "(r : HttpReq)", "(authorizer : AzProvider)"}, Ret: RetHandler},
+			Params: []string{pO, pD, "(authReq : AzStored)", "(authorizer : AzProvider)", pCl}, Ret: RetWrites},
+		{File: ar, Name: "AuthResponseCode", Lean: "AuthResponseCode", Params: []string{pO, pD, "(authReq : AzStored)", "(authorizer : AzProvider)"}, Ret: RetWrites},
+		{File: ar, Name: "AuthResponse", Lean: "AuthResponse", Params: []string{pO, pD, "(authReq : AzStored)", "(authorizer : AzProvider)"}, Ret: RetWrites},
+		{File: ar, Name: "AuthorizeCallback", Lean: "AuthorizeCallback", Params: []string{pO, pD, "(r : HttpReq)", "(authorizer : AzProvider)"}, Ret: RetWrites},
 	}
 	for i := range fs {
 		fs[i].Rename = azRename
